@@ -44,6 +44,12 @@ inductive Result (α : Type) where
   | failure          -- CKDpub on a hardened index
 deriving DecidableEq, Repr
 
+/-- a derived key when the result is valid -/
+def Result.toOption {α : Type} : Result α → Option α
+  | .ok v => some v
+  | .invalid => none
+  | .failure => none
+
 section
 variable (hmac : Bytes → Bytes → Bytes)
 
@@ -79,10 +85,13 @@ def CKDpub (Kpar : Pt) (cpar : Bytes) (i : Nat) : Option (Result (Pt × Bytes)) 
 /-- N((k, c)) → (K, c): the "neutered" version -/
 def neuter (k : Nat) (c : Bytes) : Pt × Bytes := (point k, c)
 
+/-- the ASCII bytes of "Bitcoin seed" -/
+def seedKey : Bytes := [0x42, 0x69, 0x74, 0x63, 0x6f, 0x69, 0x6e, 0x20, 0x73, 0x65, 0x65, 0x64]
+
 /-- Master key generation: I = HMAC-SHA512(Key = "Bitcoin seed", Data = S); master secret key
     parse256(I_L), master chain code I_R; invalid if parse256(I_L) is 0 or ≥ n. -/
 def master (seed : Bytes) : Result (Nat × Bytes) :=
-  let I := hmac "Bitcoin seed".toUTF8.toList seed
+  let I := hmac seedKey seed
   if parse256 (IL I) = 0 ∨ parse256 (IL I) ≥ n then .invalid else .ok (parse256 (IL I), IR I)
 
 end
